@@ -137,6 +137,11 @@ public class BigNumOverrides {
         return fromBig(sum);
     }
 
+    @TLAPlusOperator(identifier = "BigDivFloor", module = "BigNum", warn = false)
+    public static Value bigDivFloor(final Value x, final Value y) {
+        return fromBig(toBig(x).divide(toBig(y)));      // x >= 0, y > 0
+    }
+
     @TLAPlusOperator(identifier = "BigShr", module = "BigNum", warn = false)
     public static Value bigShr(final Value x, final Value k) {
         final BigInteger b = toBig(x);
